@@ -58,7 +58,7 @@ def session_defs(tier):
                                   '[on |-> TRUE, op |-> "gt", val |-> 2]}')}
 
 
-CFG_O = """CONSTANTS Alphabet = {"a", "b", ":", "1", "2"}
+CFG_O = """CONSTANTS Alphabet = {"a", "b", ":", "0", "2"}
  L = %d
  MaxOpts = %d
 INIT Init
